@@ -240,3 +240,58 @@ func VerifHarness_C07_FallbackLongText() {
 	}
 	verifReach("fallback")
 }
+
+// c07RefScore: the typo-tolerant score of text for q as the property words it — the real
+// matcher run on the command's own text, (raw+100)/100 clamped to [0,1].
+func c07RefScore(q, text string) (float64, bool) {
+	ms := fuzzy.Find(q, []string{text})
+	if len(ms) == 0 {
+		return 0, false
+	}
+	s := float64(ms[0].Score+100) / 100
+	if s < 0 {
+		s = 0
+	}
+	if s > 1 {
+		s = 1
+	}
+	return s, true
+}
+
+// texts whose letter case matters to the matcher (camelCase boundaries): results are scored
+// on the command's real text, loaded databases (lower-case caches filled) included
+func VerifHarness_C07_FallbackCase() {
+	mk := func(cmd, desc string) Command {
+		c := Command{Command: cmd, Description: desc}
+		if verifBool("cachesFilled") {
+			vFill(&c)
+		}
+		return c
+	}
+	db := &Database{Commands: []Command{mk("ConvertToJson", "Zq"), mk("xxcyytzzj", "zq"), mk("cxtxj", "Qz"), mk("nn", "oo")}}
+	db.BuildUniversalIndex()
+	q := []string{"ctj", "cj", "tj", "zz"}[verifIntRange("query", 0, 3)]
+	if len(db.SearchUniversal(q, SearchOptions{Limit: 5, AllPlatforms: true})) > 0 {
+		return // answered lexically: not the fallback
+	}
+	res := db.SearchUniversal(q, SearchOptions{Limit: 5, UseFuzzy: true, FuzzyThreshold: 0, AllPlatforms: true})
+	for k, r := range res {
+		want, ok := c07RefScore(q, r.Command.Command+" "+r.Command.Description)
+		verifAssert(ok, "C07: every fallback result matches the query on the command's own text")
+		verifAssert(c03SameFloat(r.Score, want), "C07: a fallback result is scored on the command's own text")
+		if k > 0 {
+			verifAssert(res[k-1].Score >= r.Score, "C07: fallback results are ordered best match first")
+		}
+	}
+	n := 0
+	for i := range db.Commands {
+		if _, ok := c07RefScore(q, db.Commands[i].Command+" "+db.Commands[i].Description); ok {
+			n++
+		}
+	}
+	verifAssert(len(res) == n, "C07: every command that matches is returned when no threshold is set and the limit allows")
+	verifReach("fallback")
+	if len(res) > 0 {
+		verifReach("fallback-nonempty")
+	}
+}
